@@ -31,6 +31,9 @@ func init() {
 			{Name: "escaped", Stream: c17StreamEscaped, Eval: c17Eval},
 			{Name: "raw", Stream: c17StreamRaw, Eval: c17Eval},
 			{Name: "random", N: constN(20000, 400000), Gen: c17GenRandom, Eval: c17Eval},
+			{Name: "directive-params", N: func(string) int { return len(c17Templates) }, Gen: func(r *xrand.Rand, idx int, tier string) *fw.Case {
+				return &fw.Case{Meta: map[string]string{"kind": "template"}, Ints: map[string]int{"t": idx}, Docs: []run.Doc{{}}}
+			}, Eval: c17EvalTemplate},
 		},
 		Floors: map[string]int64{"roundtrips_checked": 10000, "error_positions_checked": 2000},
 	})
@@ -352,4 +355,73 @@ func c17RoundtripClass(want, got string) string {
 		return "longer"
 	}
 	return "different"
+}
+
+// c17Templates: every parameter-taking directive with a parameter that needs no quotes; %s is written bare and quoted.
+var c17Templates = [][2]string{
+	{"JSIGHT %s\n", "0.3"},
+	{"JSIGHT 0.3\nTYPE %s any\n", "@t"},
+	{"JSIGHT 0.3\nTYPE @t %s\n", "any"},
+	{"JSIGHT 0.3\nTYPE @t %s\n", "empty"},
+	{"JSIGHT 0.3\nTYPE @t %s\n/ab/\n", "regex"},
+	{"JSIGHT 0.3\nTYPE @t %s\n{\"a\": 1}\n", "jsight"},
+	{"JSIGHT 0.3\nENUM %s\n[1, 2]\n", "@e"},
+	{"JSIGHT 0.3\nSERVER %s\n  BaseUrl \"https://a/\"\n", "@s"},
+	{"JSIGHT 0.3\nMACRO %s\n(\n  TYPE @x any\n)\nPASTE @m\n", "@m"},
+	{"JSIGHT 0.3\nMACRO @m\n(\n  TYPE @x any\n)\nPASTE %s\n", "@m"},
+	{"JSIGHT 0.3\nTAG %s\nGET /a\n  Tags @g\n  200 any\n", "@g"},
+	{"JSIGHT 0.3\nTAG @g\nGET /a\n  Tags %s\n  200 any\n", "@g"},
+	{"JSIGHT 0.3\nTAG @g\nTAG @h\nGET /a\n  Tags @g %s\n  200 any\n", "@h"},
+	{"JSIGHT 0.3\nURL %s\n  GET\n    200 any\n", "/a/{id}"},
+	{"JSIGHT 0.3\nGET %s\n  200 any\n", "/a/b"},
+	{"JSIGHT 0.3\nTYPE @t any\nPOST /a\n  Request %s\n", "any"},
+	{"JSIGHT 0.3\nTYPE @t any\nPOST /a\n  Request %s\n", "empty"},
+	{"JSIGHT 0.3\nTYPE @t\n1\nPOST /a\n  Request %s\n", "@t"},
+	{"JSIGHT 0.3\nTYPE @t\n1\nPOST /a\n  Request %s\n", "[@t]"},
+	{"JSIGHT 0.3\nPOST /a\n  Request %s\n  /ab/\n", "regex"},
+	{"JSIGHT 0.3\nPOST /a\n  Request %s\n  {\"a\": 1}\n", "jsight"},
+	{"JSIGHT 0.3\nGET /a\n  200 %s\n", "any"},
+	{"JSIGHT 0.3\nGET /a\n  200 %s\n", "empty"},
+	{"JSIGHT 0.3\nTYPE @t\n1\nGET /a\n  200 %s\n", "@t"},
+	{"JSIGHT 0.3\nTYPE @t\n1\nGET /a\n  200 %s\n", "[@t]"},
+	{"JSIGHT 0.3\nGET /a\n  200 %s\n  /ab/\n", "regex"},
+	{"JSIGHT 0.3\nGET /a\n  200 %s\n  {\"a\": 1}\n", "jsight"},
+	{"JSIGHT 0.3\nGET /a\n  200\n    Body %s\n", "any"},
+	{"JSIGHT 0.3\nTYPE @t\n1\nGET /a\n  200\n    Body %s\n", "@t"},
+	{"JSIGHT 0.3\nGET /a\n  200\n    Body %s\n    /ab/\n", "regex"},
+	{"JSIGHT 0.3\nPOST /a\n  Request\n    Body %s\n    /ab/\n", "regex"},
+	{"JSIGHT 0.3\nGET /a\n  Query %s\n  {}\n", "htmlFormEncoded"},
+	{"JSIGHT 0.3\nGET /a\n  Query %s\n  {}\n", "noFormat"},
+	{"JSIGHT 0.3\nGET /a\n  Query %s noFormat\n  {}\n", "a=1&b=2"},
+	{"JSIGHT 0.3\nURL /r\n  Protocol %s\n  Method m\n    Params\n    {}\n", "json-rpc-2.0"},
+	{"JSIGHT 0.3\nURL /r\n  Protocol json-rpc-2.0\n  Method %s\n    Params\n    {}\n", "m.n"},
+	{"JSIGHT 0.3\nINFO\n  Title %s\n", "T"},
+	{"JSIGHT 0.3\nINFO\n  Title T\n  Version %s\n", "1.0"},
+	{"JSIGHT 0.3\nSERVER @s\n  BaseUrl %s\n", "https://a.b/c"},
+}
+
+func c17EvalTemplate(t *fw.T, c *fw.Case) {
+	tp := c17Templates[c.Ints["t"]%len(c17Templates)]
+	bare := strings.Replace(tp[0], "%s", tp[1], 1)
+	quoted := strings.Replace(tp[0], "%s", "\""+tp[1]+"\"", 1)
+	db, dq := run.Single([]byte(bare)), run.Single([]byte(quoted))
+	db.FixedSeed, dq.FixedSeed = true, true
+	c.Docs = []run.Doc{db, dq}
+	ob, oq := t.Exec(db), t.Exec(dq)
+	t.Count("bare_checked")
+	t.Count("directive_params_checked")
+	if ob.Outcome != run.Accepted {
+		t.Violation("template-rejected", fmt.Sprintf("harness template is not accepted bare: %s\n%s", describe(ob), bare))
+		return
+	}
+	if oq.Outcome != ob.Outcome || string(oq.JSON) != string(ob.JSON) {
+		key := strings.Fields(strings.Split(tp[0], "%s")[0])
+		kw := key[len(key)-1]
+		if len(key) >= 2 && !strings.HasSuffix(strings.Split(tp[0], "%s")[0], kw+" ") {
+			kw = key[len(key)-2]
+		}
+		t.Violation("bare-vs-quoted-directive:"+tp[1], fmt.Sprintf("parameter %q means something else in quotes: bare %s | quoted %s\n--- quoted document\n%s", tp[1], describe(ob), describe(oq), quoted))
+		return
+	}
+	t.Distinct("template " + tp[0][:min(len(tp[0]), 40)] + tp[1])
 }
